@@ -5,6 +5,12 @@
     class).  Oracle (Spec/LvsSem.static_ok, no_rule_sign_cycle, sign_acyclicb): a static error or a signing
     cycle between rules must raise SemanticError; a schema free of static errors must compile — whatever
     the spelling / order of rule names — and must pass the loader unless a name pattern is its own signer.
+    Look-alike identifiers: a reference to an undefined rule must be an error whatever the identifier looks
+    like.  Per schema (with 0..3 further temporary-rule definitions added, one schema with 11 of them) every
+    identifier '<temporary rule id><sep><n>' (sep in '_', '', '__'; n = 0 .. number of temporary definitions
+    + 1 — the shapes under which a compiler may file the definitions of a temporary rule) and near misses of
+    the defined ids ('#a_1', '#a1', '#a_', one character less, other case) is used as a signer and as a
+    reference in a name.
  B. models: every single-field corruption of compiled models (ids, parents, destinations, edge value/tag,
     signer lists, option shapes, version, start id), used directly and after encode + Checker.load.
     Correspondence: Checker() vs Model sanity_check (outcome, error class, model functions, trust roots).
@@ -17,7 +23,11 @@ from harness.props.c11 import name_pool
 
 RULE = ('A: generated schemas x {undefined rule, temporary rule, self reference, 2-cycle} at every name position, '
         '{unknown lhs, unknown temp lhs, unknown rhs, temp rhs, unknown / temp function argument} at every constraint '
-        'position, {unknown, temporary} signer at every position, rule-name permutations; B: compiled models x every '
+        'position, {unknown, temporary} signer at every position, rule-name permutations; look-alike identifiers: the '
+        'schema + 0..3 extra temporary-rule definitions (ids may repeat; one fixed schema with 11) x every undefined '
+        'identifier <temporary id><_ | nothing | __><n>, n = 0 .. #temporary definitions + 1, <temporary id>_, and near '
+        'misses of defined ids (<id>_1, <id>1, <id>_, one character less, other case), each as a signer and as a name '
+        'reference at a random (thorough: 3 random) rule / position; B: compiled models x every '
         'single-field corruption (version, start id, named-pattern count, node id, parent, edge destination, edge '
         'value/tag, signer entry, 11 option shapes) to {0, other valid id, out of range, 2^63, absent}, direct and '
         'via save/load, then all names to length 2 + guided names under a step budget; non-trivial = the input differs '
@@ -39,6 +49,67 @@ def rename_rules(ast, rng):
 
 
 SANEB_MAX_NODES = 400
+
+EXTRA_TEMP_IDS = ['#_', '#_t', '#_K']
+
+
+def with_temp_rules(ast, lits, extra, rng):
+    """the schema plus [extra] further definitions of temporary rules (the same id may be defined several times),
+    inserted at random places of the file"""
+    a2 = list(ast)
+    for _ in range(extra):
+        nm = [('lit', rng.choice(lits)) if rng.random() < 0.6 else ('pat', '_') for _ in range(rng.randint(1, 3))]
+        a2.insert(rng.randint(0, len(a2)), (rng.choice(EXTRA_TEMP_IDS), nm, [], []))
+    return a2
+
+
+def lookalike_ids(ast):
+    """-> [(kind, identifier)]: identifiers a schema text can spell, defined nowhere in [ast], that look like the label of a
+    definition: a temporary rule id followed by a separator and a number (the k-th temporary definition of a file is filed /
+    reported under its id + a counter), and near misses of the ordinary rule ids"""
+    ids = [r[0] for r in ast]
+    temp_defs = [i for i in ids if i[1] == '_']
+    out = []
+    for rid in dict.fromkeys(temp_defs):
+        for n in range(0, len(temp_defs) + 2):
+            for sep in ('_', '', '__'):
+                out.append(('label-like', f'{rid}{sep}{n}'))
+        out.append(('label-like', rid + '_'))
+    for rid in dict.fromkeys(i for i in ids if i[1] != '_'):
+        for v in (rid + '_1', rid + '1', rid + '_', rid[:-1], '#' + rid[1:].swapcase()):
+            if len(v) > 1:
+                out.append(('near-miss', v))
+    seen = set(ids)
+    return [(k, v) for k, v in out if v not in seen and not seen.add(v)]
+
+
+def inject_lookalikes(ast, rng, per_id):
+    """every look-alike identifier as a signer and as a reference inside a name, at [per_id] random rules / positions each"""
+    out = []
+    for kind, ident in lookalike_ids(ast):
+        for _ in range(per_id):
+            i = rng.randrange(len(ast))
+            rid, name, cons, sign = ast[i]
+            j = rng.randint(0, len(sign))
+            a2 = list(ast)
+            a2[i] = (rid, name, cons, sign[:j] + [ident] + sign[j:])
+            out.append((kind + '-signer', a2))
+            i = rng.randrange(len(ast))
+            rid, name, cons, sign = ast[i]
+            j = rng.randint(0, len(name))
+            a2 = list(ast)
+            a2[i] = (rid, name[:j] + [('ref', ident)] + name[j:], cons, sign)
+            out.append((kind + '-reference', a2))
+    return out
+
+
+# 11 temporary definitions (two-digit counters), two ids, ordinary rules before, between and after them
+MANY_TEMP_RULES = (
+    [('#a', [('lit', 'a'), ('pat', 'x')], [], ['#k'])]
+    + [('#_' if i % 3 else '#_t', [('lit', 'b'), ('lit', 'v=0')][: 1 + i % 2] + [('pat', '_')] * (i % 3), [], []) for i in range(6)]
+    + [('#k', [('lit', 'k'), ('pat', 'x')], [], [])]
+    + [('#_' if i % 2 else '#_t', [('lit', 'c')] + [('pat', '_')] * (1 + i % 2), [], ['#k'] if i == 3 else []) for i in range(5)]
+    + [('#b', [('ref', '#a'), ('lit', 'KEY')], [], ['#a'])])
 
 
 def check_static(ctx, ast, fe, kind, tag):
@@ -194,6 +265,16 @@ def run(ctx):
             inj = rng.sample(inj, 60)
         for kind, a2 in inj:
             check_static(ctx, a2, fe, kind, 'static')
+        # look-alike identifiers, on the schema with 0..3 further temporary-rule definitions
+        extra = done % 4
+        base = with_temp_rules(ast, lits, extra, rng)
+        if extra and ctx.call([8, L.sx_ast(base)])[0]:
+            check_static(ctx, base, fe, 'none', 'static.temp-rules-added')
+        for kind, a2 in inject_lookalikes(base, rng, ctx.n(1, 3)):
+            check_static(ctx, a2, fe, kind, 'static.lookalike')
+    check_static(ctx, MANY_TEMP_RULES, {}, 'none', 'static.many-temp-rules')
+    for kind, a2 in inject_lookalikes(MANY_TEMP_RULES, rng, ctx.n(1, 3)):
+        check_static(ctx, a2, {}, kind, 'static.lookalike')
     # ---- B. corrupted models ----------------------------------------------------------------------
     from ndn.app_support.light_versec import compile_lvs, binary as bny
     schemas = list(LOADER_SCHEMAS)
